@@ -51,7 +51,7 @@ def f_of(p: int) -> float:
     return float(10 ** p)
 
 
-def project(obj):
+def project(obj, derived=True):
     """Real DataSet -> [(id, masked, z)] in storage order; also evaluates the view clauses."""
     import numpy as np
     if obj is None:
@@ -86,7 +86,13 @@ def project(obj):
         want_z = [complex(Z[i]) for i in range(n) if bool(mask[i]) == flag]
         if fv != want_f or zv != want_z or obj.get_num_points(masked=flag) != len(want_f):
             raise OffGrid(f"view masked={flag} is not the {flag}-part of the full view: {fv} {zv}")
-    # derived views (Nyquist / Bode / data frame) are functions of the unmasked view
+    if not derived:
+        d = obj.to_dict()
+        if [float(x) for x in d["frequencies"]] != [float(x) for x in f] or \
+                {int(k): bool(v) for k, v in d["mask"].items()} != {int(k): bool(v) for k, v in mask.items()}:
+            raise OffGrid("to_dict() disagrees with the getters")
+        return pts
+    # derived views (Nyquist / Bode / data frame) are functions of the unmasked view (checked at the last step of a behaviour)
     fz = [float(f[i]) for i in range(n) if not mask[i]]
     zz = np.array([complex(Z[i]) for i in range(n) if not mask[i]], dtype=complex)
     re_, im_ = obj.get_nyquist_data()
@@ -242,7 +248,7 @@ def judge_history(hist):
         want_cur, want_oth = expected_pts(rec["p"][0]), expected_pts(rec["p"][1])
         for name, obj, want in (("addressed", w.cur, want_cur), ("other", w.oth, want_oth)):
             try:
-                got = project(obj)
+                got = project(obj, derived=(k == len(hist) - 1))
             except OffGrid as e:
                 return ("violation", f"{a}:{name}:views", k, str(e))
             except Exception as e:  # noqa: BLE001
